@@ -768,10 +768,11 @@ def propagateCmd (rest : String) : String :=
     let big := 1000000
     let vfuel := (Sexp.nat? vk).getD big
     let dfuel := (Sexp.nat? dk).getD big
-    let (bs1, fixV) := Propagate.valLoop vfuel (Propagate.valInit prime cfg.blocks) cfg.blocks
-    let (bs2, fixD) := Propagate.degLoop dfuel (Propagate.degInit cfg) bs1
+    -- the counted loops: the same blocks and flags as `valLoop` / `degLoop` (`valLoopN_spec`, `degLoopN_spec`), plus the number of passes
+    let (bs1, fixV, nV) := Propagate.valLoopN vfuel (Propagate.valInit prime cfg.blocks) cfg.blocks 0
+    let (bs2, fixD, nD) := Propagate.degLoopN dfuel (Propagate.degInit cfg) bs1 0
     let anns := bs2.flatMap (fun b => b.stmts.flatMap annStmt)
-    s!"{fixV} {fixD} " ++ " ".intercalate anns
+    s!"{fixV} {fixD} {nV} {nD} " ++ " ".intercalate anns
   | _ => "bad-op"
 
 /-- `lessthan <curve tag> <stmt>*` with `I:<key>:<L|U|N.<size|->.<size text>>` (an instantiation) and
